@@ -100,6 +100,33 @@ def judge(ctx, name, inst):
             return
 
 
+def sample_models(ctx, name, inst, n, tag):
+    """Soundness on boards too large to enumerate: full models of the REAL encoding (several, pairwise different on the answer keys)
+    are handed to the independent rule checker.  A model the rules refute means the encoding admits a grid that breaks the rules -
+    the direction a planted solution cannot see."""
+    spec = rules.PUZZLES[name]
+    if getattr(spec, "check_model", None) is None:
+        return
+    with msolve.model_sampler() as ms:
+        for k in range(n):
+            try:
+                is_sat, got = spec.solve(inst)
+            except Exception as e:
+                ctx.count("c11.sampler_raised")
+                ctx.note(f"model sampler: solve_{name} raised {type(e).__name__}")
+                return
+            if not is_sat:
+                ctx.count("c11.sampler_exhausted")
+                return
+            ctx.count("c11.models_sampled")
+            ctx.count("c11.models_sampled." + name)
+            if not spec.check_model(inst, got):
+                ctx.violation(f"{name}:model-breaks-rules:{shape_class(inst)}:{tag}",
+                              f"solve_{name}'s encoding has a model (sample #{k + 1}) that the rule checker refutes: the solver admits a grid that "
+                              "does not obey the rules", dict(ctx.current_case, model={kk: v for kk, v in got.items() if v}, sample=k))
+                return
+
+
 def judge_planted(ctx, name, inst, sol):
     """Boards too large to enumerate: the instance was built around a rule-obeying grid (partial, sound oracle)."""
     spec = rules.PUZZLES[name]
@@ -153,6 +180,8 @@ def run(ctx):
                 continue
             with ctx.guard(90):
                 judge_planted(ctx, name, r[0], r[1])
+            with ctx.guard(90):
+                sample_models(ctx, name, r[0], 3 if not thorough else 6, "planted")
     msolve.uninstall()
 
 
